@@ -831,9 +831,9 @@ impl SetU64 {
         match self.internal() {
             Internal::Empty => std::mem::size_of::<Self>(),
             Internal::Stack(_) => std::mem::size_of::<Self>(),
-            Internal::Heap { s, .. } => std::mem::size_of::<Self>() + s.cap * 8 - 8,
-            Internal::Dense { a, .. } => std::mem::size_of::<Self>() + a.len() * 8 - 8,
-            Internal::Big { s, .. } => std::mem::size_of::<Self>() + s.cap * 8 - 8,
+            Internal::Heap { s, .. } => std::mem::size_of::<Self>() + bytes_for_capacity(s.cap),
+            Internal::Dense { a, .. } => std::mem::size_of::<Self>() + bytes_for_capacity(a.len()),
+            Internal::Big { s, .. } => std::mem::size_of::<Self>() + bytes_for_capacity(s.cap),
         }
     }
     fn dense_with_max(mx: u64) -> SetU64 {
